@@ -929,6 +929,9 @@ func TestVerifNhsim(t *testing.T) {
 	case "smc":
 		rec.keep = func(ev string) bool { return ev != "Send" && ev != "Save" && ev != "Boot" && ev != "Apply" }
 	}
+	if os.Getenv("VERIF_KEEPALL") != "" {
+		rec.keep = nil // debugging aid: the complete event stream
+	}
 	sms := []string{"regular", "concurrent", "ondisk"}
 	for k := 0; k < traces; k++ {
 		tid := first + k
@@ -959,7 +962,11 @@ func TestVerifNhsim(t *testing.T) {
 			continue
 		}
 		if mode == "member" {
-			nhScenarioMember(rec, tid, s, sms[(tid/2)%3], p.store, nhEnvInt("VERIF_ROUNDS", 14))
+			smt := sms[(tid/2)%3]
+			if v := os.Getenv("VERIF_SM"); v != "" {
+				smt = v
+			}
+			nhScenarioMember(rec, tid, s, smt, p.store, nhEnvInt("VERIF_ROUNDS", 14))
 			continue
 		}
 		if mode == "quiesce" {
